@@ -39,7 +39,8 @@ add("C01",
     "rounding-error enclosure; singular slices must raise the documented error; rows must not depend on the batch; invalid "
     "fixed parameters must raise ValueError; refilled buffers, bystander objects of the same class and a wide_data facet (p up to 160, "
     "units 1e-3..1e3) and a structured_batches facet (back-to-back, common-end / common-start and nested batches on series of up to 6000 samples) are "
-    "included. Bounded exploration (n<=120 with p<=4, n~4p for wide data).",
+    "included; a covariance_structures facet evaluates fixed covariances of real structure (equicorrelated, one-factor, block, channels in units 1000 .. 0.004) "
+    "against the definition in whitened units. Bounded exploration (n<=120 with p<=4, n~4p for wide data).",
     "Trusted: NumPy long double arithmetic, the error model B=32(N+1)^2 eps M^2 of DESIGN.md 3.4; ill-conditioned multivariate "
     "slices (cond>1e10) accept either outcome.",
     "DESIGN.md section 4, C01")
@@ -51,7 +52,8 @@ add("C03",
     "score, the re-evaluated reported anomalies, interval well-formedness and ignore_point_anomalies are compared with an un-pruned "
     "DP that is self-tested against exhaustive enumeration; further facets place MVCAPA cases at the pruning boundary, run 12000 cheap "
     "small-integer series per quick run with a binding max_segment_length, and compare series of up to 66000 samples with the un-pruned "
-    "recursion; default_settings on seeded realistic series. Bounded exploration (n<=14 tables, n<=100 structured data, long series with bounded "
+    "recursion; default_settings on seeded realistic series; dense_wide_mvcapa: 16-64 channels with events below the sparse penalty in every channel. "
+    "Bounded exploration (n<=14 tables, n<=100 structured data, long series with bounded "
     "max_segment_length).",
     "Trusted: oracle in oracles/reference.py; built-in penalty functions are inputs here (pinned by C15); optimality asserted only "
     "where the evaluated savings are sub-additive and non-negative.",
@@ -136,7 +138,8 @@ add("C09",
     "tuned), local scores from L2 / Gaussian / user L1 costs and integer Table/Function local scores; every table row's score and "
     "inner interval are recomputed over all admissible inner intervals, candidate-free rows must stay at 0, the reported anomalies "
     "must be an outcome of the greedy overlap-removal rule, and a larger threshold returns a subset; series of 150-240 samples with a function "
-    "score, > 1000 anomalies (many_anomalies), a covariance cost, level-dependent user scores on a level of 9e9. Bounded (n<=30 generic, long cells up to 12000).",
+    "score, > 1000 anomalies (many_anomalies), fine interval grids whose candidate list holds an interval twice (fine_interval_grid), a covariance cost, "
+    "level-dependent user scores on a level of 9e9; detectors fitted on other lengths / numbers of columns and with a past. Bounded (n<=30 generic, long cells up to 12000).",
     "Trusted: local anomaly score values (C06); greedy model in oracles/reference.py; thresholds >= 0 only.",
     "DESIGN.md section 4, C09")
 
@@ -206,10 +209,11 @@ add("C10",
     "Histories of construct / clone / set_params (incl. nested parameters of a shared cost object) / fit / update / predict / "
     "transform / transform_scores / scorer fit / evaluate over all seven detectors, ten scorer configurations, shared cost "
     "instances and a pool of datasets with different n and p; after every output-producing call the same call on a freshly "
-    "constructed object fitted on the model's training data (update => new.combine_first(old)) must give the same output or "
+    "constructed object fitted on the model's training data (update => one row per label, latest delivery wins, label order - also for late chunks) must give the same output or "
     "the same exception class; after every step get_params(deep) must equal the specification and the datasets their "
     "pristine copies. The shrunk op list is the replay file. Two facets of "
-    "generated targeted histories (scorer state that depends on earlier data; several scorers of one class asked for the same segments) replay "
+    "generated targeted histories (scorer state that depends on earlier data; several scorers of one class asked for the same segments; one change "
+    "detector object inside two anomalisers; the set_params scan loop) replay "
     "through the same interpreter. Bounded exploration (<= 45 steps, 4 detector slots).",
     "Trusted: sktime clone/set_params/reset semantics (mirrored by the model); shared instances are shared between detectors "
     "only; objects whose re-fit or update failed are retired (their state is not defined by the documentation).",
